@@ -157,14 +157,8 @@ def zero(T): return {"bool": "false", "string": '"false"'}.get(T, "%s(0)" % T)
 # ---------------- comparison methods ----------------
 ORD = INTS + FLOATS + ["string"]
 EQT = ["bool"] + INTS + ["uintptr"] + FLOATS + CPLX + ["string"]
-w("""// a variadic list of tensors gives the iterator of the first one (trusted, as Dense.Iterator)
-//@ func tensor.IteratorFromDense
-//@   trusted
-//@   ensures [some] !isnil(result) && fresh(asptr("tensor.FlatIterator", result))
-//@   ensures [start] gh("it_pos", result) == 0
-//@   ensures [in_range] len(tts) == 1 ==> (forall p :: 0 <= p && p < it_len(result) ==> 0 <= it_seq(result, p) && it_seq(result, p) < len(asptr("tensor.Dense", tts[0]).Raw) / rsize(asptr("tensor.Dense", tts[0]).t))
-//@   assigns nothing
-""")
+# (the trusted contract of IteratorFromDense lives in verif_contracts_maskinspect.go, with the masked case)
+
 import sys
 CMP = True
 for ops, types, name in ((([o], (ORD if o in ("Gt", "Gte", "Lt", "Lte") else EQT), "eng_cmp_" + o.lower()) for o in ("Gt", "Gte", "Lt", "Lte", "ElEq", "ElNe")) if CMP else ()):
@@ -273,7 +267,7 @@ CMPS = {"Gt": ("gogt", ORD), "Gte": ("goge", ORD), "Lt": ("golt", ORD), "Lte": (
 for OPN, (f, types) in CMPS.items():
     w("//@ schema eng_cmp_scalar_%s match tensor.StdEng.{Op}Scalar" % OPN.lower())
     w("//@   where Op in %s" % OPN)
-    w("//@   props C07 C11")
+    w("//@   props C11")
     w("//@   config devirt tensor.Tensor=*tensor.Dense,tensor.DenseTensor=*tensor.Dense")
     for T in types:
         w('//@   let %s = tview("%s", %s)' % (V("t", T), T, T_))
